@@ -327,6 +327,8 @@ func main() {
 	pure, effectful := extractFuncs(map[string]*pkgInfo{"snaps": snaps, "difflib": difflib, "match": match, "colors": loadPkg(filepath.Join(repo, "internal", "colors"))}, F)
 	write(filepath.Join(out, "Funcs.lean"), pure)
 	write(filepath.Join(out, "FuncsIO.lean"), effectful)
+	// internal/difflib/difflib.go: the matcher itself (difflibgen.go)
+	write(filepath.Join(out, "DifflibGen.lean"), extractDifflib(difflib, F))
 	if len(os.Args) > 4 && os.Args[3] == "-write-prims" {
 		checkPrims(F, map[string]*pkgInfo{"snaps": snaps, "match": match}, os.Args[4])
 		return
